@@ -1,6 +1,6 @@
 (* C20 — progress figures are truthful. Pinned statements only. *)
 From CFDP Require Import Base.Prelude Model.Segments Model.Timer Model.TxTypes Model.Recv Model.Send
-  Proofs.SegmentsP Proofs.RecvInv Proofs.SendP.
+  Proofs.SegmentsP Proofs.RecvInv Proofs.SendP Proofs.KeepAliveP.
 
 (* Receiver: in every reachable state the progress figure (received_file_size, the value
    carried by KeepAlive PDUs and by Fault / Abandon / Resumed indications) equals the number of
@@ -18,6 +18,15 @@ Theorem C20_receiver_outputs_carry_progress : forall FS now c (s : rstate FS),
   In (OInd (IAbandon (r_cond s) (r_recvd s))) (r_out (abandon now s)) /\
   In (OInd (IResumed (r_recvd s))) (r_out (resume now s)).
 Proof. exact progress_sites. Qed.
+
+(* the figure sent to the PEER: the Keep Alive PDU answering a Prompt(Keep Alive) carries
+   received_file_size - in every phase - and answering leaves the figure and the data untouched *)
+Theorem C20_keepalive_carries_progress : forall FS resp_len req_len now (s : rstate FS),
+  r_prompt s = Some PKeepAlive ->
+  let s' := send_pdu resp_len req_len now s in
+  (exists p, r_out s' = OPdu p :: r_out s /\ o_payload p = PKeepAliveP (r_recvd s)) /\
+  r_prompt s' = None /\ r_recvd s' = r_recvd s.
+Proof. exact keepalive_carries_progress. Qed.
 
 (* Sender: after every step the progress is the maximum of the previous progress and the
    highest end offset among the file data PDUs emitted in the step - so, by induction, it is
@@ -37,3 +46,4 @@ Print Assumptions C20_receiver_progress_invariant.
 Print Assumptions C20_receiver_progress_initial.
 Print Assumptions C20_receiver_outputs_carry_progress.
 Print Assumptions C20_sender_progress_step.
+Print Assumptions C20_keepalive_carries_progress.
